@@ -122,3 +122,192 @@ Example C09_example_old_witness_blocked :
   run step init [LSpawn 0 1; LKillCheck 1 0; LPop 1 None; LPush 0 7; LALock 0; LSignal 0; LAUnlock 0;
                  LIdleReg 1; LWLock 1; LKillRead 1 0; LSizeRead 1 0] = None.
 Proof. vm_compute. reflexivity. Qed.
+
+(* ================================================================================== *)
+(* "... is EVENTUALLY started by exactly one worker without any further call being needed":
+   termination of the pool's internal activity (Proofs/PoolLiveness.v).
+
+   [internal s l]: label l continues something already started (a worker's next lock region,
+   the rest of an AddTask, the Broadcast owed after workerKill was set, the rest of a
+   Broadcast); NOT internal: AddTask's Push, SetWorkerCount's kill / grow / spawn, the
+   observations, the start of a periodic WaitAll / JoinAll re-Broadcast.
+   [irun s sched = Some s']: sched leads from s to s' and every step of it is internal.
+   [quiescent s]: no internal step is enabled in s - a run ending there is MAXIMAL.
+   [asleep s]: L is free, no AddTask and no Broadcast is in flight, every worker is inside
+   Wait, no wake-up is left. *)
+From Ecal Require Import Proofs.PoolLiveness.
+
+(* The termination measure (workers weighted by their distance to the next sleep, 3 per
+   queued task, 11 per unconsumed wake-up, 13-14 per AddTask that owes its Signal,
+   11 * #workers per Broadcast still to come): EVERY internal step strictly decreases it, in
+   every state whose workerKill is one of the values the code stores (-1, 0, positive; below
+   -1 the workers of the Go code - and of the model - would spin). *)
+Theorem C09_internal_step_decreases :
+  forall s l s', (-1 <= kill s)%Z -> internal s l = true -> step s l = Some s' ->
+  measure s' < measure s.
+Proof. exact measure_step. Qed.
+Print Assumptions C09_internal_step_decreases.
+
+(* Hence there is no infinite internal run: the length of every internal run is bounded by
+   the measure of the state it starts in (no fairness assumption anywhere). *)
+Theorem C09_internal_runs_bounded :
+  forall s sched s', (-1 <= kill s)%Z -> irun s sched = Some s' -> length sched <= measure s.
+Proof. exact runs_bounded. Qed.
+Print Assumptions C09_internal_runs_bounded.
+
+(* ... and from every reachable state some internal run ends in a quiescent state. *)
+Theorem C09_maximal_run_exists :
+  forall s, reachable step init s -> (-1 <= kill s)%Z ->
+  exists sched s', irun s sched = Some s' /\ quiescent s'.
+Proof. exact maximal_run_exists. Qed.
+Print Assumptions C09_maximal_run_exists.
+
+(* A reachable state is quiescent exactly when the pool is asleep. *)
+Theorem C09_quiescent_iff_asleep :
+  forall s, reachable step init s -> (quiescent s <-> asleep s).
+Proof.
+  intros s R; split;
+    [exact (quiescent_asleep s (reach_kinv s R) (reach_ninv s R)) | exact (asleep_quiescent s)].
+Qed.
+Print Assumptions C09_quiescent_iff_asleep.
+
+(* DRAINS.  From any reachable state in which no JoinAll is in progress and at least one
+   worker is going to stay (live workers - workerKill > 0): EVERY maximal internal run - any
+   interleaving, no further call into the pool - ends with nothing queued, nothing running,
+   every task ever handed to AddTask executed (as a multiset: exactly once,
+   C09_exactly_once), the workers asleep, and exactly live - workerKill of them left. *)
+Theorem C09_drains :
+  forall s sched s',
+  reachable step init s -> nojoin s -> (0 < balance s)%Z ->
+  irun s sched = Some s' -> quiescent s' ->
+  queue s' = [] /\ running (workers s') = [] /\ Permutation (done s') (added s) /\
+  asleep s' /\ Z.of_nat (length (workers s')) = balance s.
+Proof. exact drains. Qed.
+Print Assumptions C09_drains.
+
+(* The same for the situation of the property text: no resize in progress (workerKill = 0),
+   at least one live worker. *)
+Theorem C09_drains_kill0 :
+  forall s sched s',
+  reachable step init s -> kill s = 0%Z -> cnt isAKT (workers s) = 0 -> cnt isLive (workers s) > 0 ->
+  irun s sched = Some s' -> quiescent s' ->
+  queue s' = [] /\ running (workers s') = [] /\ Permutation (done s') (added s) /\
+  asleep s' /\ length (workers s') = cnt isLive (workers s).
+Proof. exact drains_kill0. Qed.
+Print Assumptions C09_drains_kill0.
+
+(* "changing the worker count converges to the requested number", for resizes that do not
+   overlap (no worker of an earlier shrink / JoinAll is still on its way out when the call
+   reads len(workerMap); the overlapping case is fixes/C09-resize-overlap.finding.md), busy
+   workers and in-flight AddTasks allowed.
+   Shrink n -> c: after workerKill := n - c every internal run is bounded, and every maximal
+   one ends with exactly c workers, workerKill = 0, the pool asleep. *)
+Theorem C09_setworkercount_converges :
+  forall s0 e n c s sched s',
+  reachable step init s0 ->
+  length (workers s0) = n -> cnt isEx (workers s0) = 0 -> cnt isAKT (workers s0) = 0 -> c <= n ->
+  step s0 (LSetKill e (Z.of_nat n - Z.of_nat c)%Z) = Some s ->
+  irun s sched = Some s' ->
+  length sched <= measure s /\
+  (quiescent s' -> length (workers s') = c /\ kill s' = 0%Z /\ asleep s').
+Proof. exact shrink_converges. Qed.
+Print Assumptions C09_setworkercount_converges.
+
+(* Grow to c: in the state after the call's steps (workerKill := 0, workers spawned until
+   len(workerMap) = c) every maximal internal run ends with exactly c workers. *)
+Theorem C09_setworkercount_grow_converges :
+  forall s c sched s',
+  reachable step init s -> kill s = 0%Z -> cnt isEx (workers s) = 0 -> cnt isAKT (workers s) = 0 ->
+  length (workers s) = c ->
+  irun s sched = Some s' ->
+  length sched <= measure s /\
+  (quiescent s' -> length (workers s') = c /\ kill s' = 0%Z /\ asleep s').
+Proof. exact grown_converges. Qed.
+Print Assumptions C09_setworkercount_grow_converges.
+
+(* "joining processes all queued tasks and then leaves zero workers", the eventually part:
+   once JoinAll has set workerKill = -1 in a pool with at least one worker that has not left,
+   every internal run is bounded and every maximal one ends with zero workers, nothing
+   queued, every accepted task executed (C09_joinall_leaves_zero_workers is about the exit
+   condition JoinAll reads; this is that it will come to hold). *)
+Theorem C09_joinall_drains :
+  forall s sched s',
+  reachable step init s -> kill s = (-1)%Z -> cnt isLive (workers s) > 0 ->
+  irun s sched = Some s' ->
+  length sched <= measure s /\
+  (quiescent s' -> workers s' = [] /\ queue s' = [] /\ Permutation (done s') (added s)).
+Proof. exact join_drains. Qed.
+Print Assumptions C09_joinall_drains.
+
+(* Non-vacuity.  Two workers, worker 1 asleep, worker 2 at the loop head, two AddTask calls
+   have pushed tasks 7 and 8 and owe their Signals: measure 41 = 0 + 7 (workers) + 2 * 14
+   (AddTasks) + 2 * 3 (queued). *)
+Definition C09_two_queued : list label :=
+  [LSpawn 0 1; LSpawn 0 2; LKillCheck 1 0; LPop 1 None; LIdleReg 1; LWLock 1; LKillRead 1 0;
+   LSizeRead 1 0; LWait 1; LPush 0 7; LPush 1 8].
+
+Example C09_example_measure :
+  option_map (fun s => (queue s, workers s, adders s, measure s)) (run step init C09_two_queued)
+  = Some ([7; 8], [(2, Head); (1, Waiting)], [(1, APushed); (0, APushed)], 41).
+Proof. vm_compute. reflexivity. Qed.
+
+(* one of its maximal internal runs (30 <= 41 steps): the first Signal wakes worker 1, which
+   runs task 7; the second Signal finds nobody asleep; worker 2 runs task 8; both go to sleep *)
+Definition C09_drain_run : list label :=
+  [LALock 0; LSignal 0; LAUnlock 0; LWake 1; LRelock 1; LWUnlock 1; LIdleDereg 1;
+   LKillCheck 1 0; LPop 1 (Some 7); LDone 1 7; LALock 1; LSignal 1; LAUnlock 1;
+   LKillCheck 2 0; LPop 2 (Some 8); LDone 2 8;
+   LKillCheck 1 0; LPop 1 None; LIdleReg 1; LWLock 1; LKillRead 1 0; LSizeRead 1 0; LWait 1;
+   LKillCheck 2 0; LPop 2 None; LIdleReg 2; LWLock 2; LKillRead 2 0; LSizeRead 2 0; LWait 2].
+
+Example C09_example_drain_run :
+  match run step init C09_two_queued with
+  | Some s => option_map (fun s' => (asleepb s', queue s', done s', workers s', measure s',
+                                     length C09_drain_run))
+                         (irun s C09_drain_run)
+  | None => None
+  end = Some (true, [], [8; 7], [(2, Waiting); (1, Waiting)], 0, 30).
+Proof. vm_compute. reflexivity. Qed.
+
+(* the hypotheses of C09_drains are met by that state and run *)
+Example C09_example_drains_hypotheses :
+  exists s s', run step init C09_two_queued = Some s /\ nojoin s /\ (0 < balance s)%Z /\
+               irun s C09_drain_run = Some s' /\ quiescent s'.
+Proof.
+  eexists. eexists.
+  split; [vm_compute; reflexivity|].
+  split; [split; vm_compute; [discriminate | reflexivity]|].
+  split; [vm_compute; reflexivity|].
+  split; [vm_compute; reflexivity|].
+  apply asleep_quiescent, asleepb_sound. vm_compute. reflexivity.
+Qed.
+
+(* a shrink 2 -> 1 on that (busy) pool: a maximal run after workerKill := 1 leaves 1 worker *)
+Example C09_example_shrink :
+  match run step init (C09_two_queued ++ [LSetKill 5 1]) with
+  | Some s => option_map (fun s' => (asleepb s', length (workers s'), kill s', done s'))
+                (irun s [LELock 5; LEBcast 5; LEUnlock 5; LKillCheck 2 1; LExit 2;
+                         LALock 0; LSignal 0; LAUnlock 0; LALock 1; LSignal 1; LAUnlock 1;
+                         LWake 1; LRelock 1; LWUnlock 1; LIdleDereg 1;
+                         LKillCheck 1 0; LPop 1 (Some 7); LDone 1 7;
+                         LKillCheck 1 0; LPop 1 (Some 8); LDone 1 8;
+                         LKillCheck 1 0; LPop 1 None; LIdleReg 1; LWLock 1; LKillRead 1 0;
+                         LSizeRead 1 0; LWait 1])
+  | None => None
+  end = Some (true, 1, 0%Z, [8; 7]).
+Proof. vm_compute. reflexivity. Qed.
+
+(* JoinAll on that pool: a maximal run after workerKill := -1 leaves no worker, both tasks run *)
+Example C09_example_join :
+  match run step init (C09_two_queued ++ [LSetKill 5 (-1)]) with
+  | Some s => option_map (fun s' => (asleepb s', workers s', queue s', kill s', done s'))
+                (irun s [LELock 5; LEBcast 5; LEUnlock 5;
+                         LALock 0; LSignal 0; LAUnlock 0; LALock 1; LSignal 1; LAUnlock 1;
+                         LKillCheck 2 (-1); LPop 2 (Some 7); LDone 2 7;
+                         LWake 1; LRelock 1; LWUnlock 1; LIdleDereg 1;
+                         LKillCheck 1 (-1); LPop 1 (Some 8); LDone 1 8;
+                         LKillCheck 1 (-1); LPop 1 None; LExit 1;
+                         LKillCheck 2 (-1); LPop 2 None; LExit 2])
+  | None => None
+  end = Some (true, [], [], (-1)%Z, [8; 7]).
+Proof. vm_compute. reflexivity. Qed.
